@@ -27,6 +27,7 @@ POLICIES = [
     ({"kind": "pct", "d": 3}, 1),
     ({"kind": "rtc"}, 2),
     ({"kind": "starve", "mean": 10}, 1.5),
+    ({"kind": "directed", "mean": 100}, 5),
 ]
 
 _ID_RE = re.compile(r"\b[A-Za-z_]\w*\b")
@@ -49,6 +50,8 @@ def gen_run(rng, cfg):
     n = rng.choice([2, 2, 2, 3, 3, 4])
     mode = "line" if rng.random() < cfg.get("line_fraction", 0.4) else "token"
     policy = dict(_pick_weighted(rng, POLICIES))
+    if policy["kind"] == "directed":
+        mode = "line"  # the policy pre-empts at source lines that write shared state
     faulty = rng.random() < 0.5
     long_inputs = cfg.get("long_corpus") and mode == "token" and rng.random() < cfg.get("long_fraction", 0.0)
     if long_inputs:
@@ -308,6 +311,8 @@ def summarise(spec, result, info):
     if info.get("rec_mismatches"):
         pr["recursion_mismatch_rechecked"] = info["rec_mismatches"]
         pr["recursion_mismatch_dismissed_as_not_robust"] = info.get("rec_mismatches_not_robust", 0)
+    if result.get("directed_switches"):
+        pr["directed_switches_at_shared_write_lines"] = result["directed_switches"]
     if result.get("blocked_waits"):
         pr["waits_on_simulated_locks"] = result["blocked_waits"]
     sites = result.get("switch_sites") or {}
